@@ -132,7 +132,7 @@ def main():
                 t = subprocess.run(['/venv/bin/python', '-m', 'pytest', '-q', '-p', 'no:cacheprovider', '-x',
                                     '--no-cov'], cwd=tree, capture_output=True, text=True)
                 tests = 'tests-pass' if t.returncode == 0 else 'TESTS-FAIL'
-            env = dict(os.environ, VERIF_REPO=tree)
+            env = dict(os.environ, VERIF_REPO=tree, VERIF_NO_EVIDENCE='1')
             r = subprocess.run([os.path.join(VERIF, 'check'), prop, '--tier', a.tier], cwd=VERIF, env=env,
                                capture_output=True, text=True)
             nv = r.stdout.count('VIOLATION')
